@@ -287,7 +287,8 @@ func (p *c09) RunCase(i int) *core.CaseResult {
 		// documented forms spelled exactly as in the guide
 		docs := []func() any{
 			func() any {
-				return map[string]any{"data": []any{[]any{[]any{1.0, 2.0, 3.0}, []any{4.0, 5.0, 6.0}}, []any{[]any{7.0, 8.0, 9.0}}}, "users": []any{[]any{map[string]any{"name": "n0", "email": "e0"}}, []any{map[string]any{"name": "n1", "email": "e1"}}}}
+				return map[string]any{"data": []any{[]any{[]any{1.0, 2.0, 3.0}, []any{4.0, 5.0, 6.0}}, []any{[]any{7.0, 8.0, 9.0}}}, "users": []any{[]any{map[string]any{"name": "n0", "email": "e0"}}, []any{map[string]any{"name": "n1", "email": "e1"}}},
+					"a": map[string]any{"b": []any{[]any{1.0, 2.0}, []any{3.0}}, "x": map[string]any{"c": 5.0}}}
 			},
 		}
 		type ex struct {
@@ -309,6 +310,13 @@ func (p *c09) RunCase(i int) *core.CaseResult {
 				{"data[each].x::[0]", []selStep{key("data"), idx(false, de()), key("x"), {kind: "cont"}, idx(false, di(0))}},
 				{"mix=>data[each]", []selStep{{kind: "fn", key: "mix"}, key("data"), idx(false, de())}},
 				{"data[keep=>(0:1):each]", []selStep{key("data"), idx(true, dr(0, 1), de())}},
+				// three and four stages, a function in the first, a middle and the last one
+				{"a::b::[0]", []selStep{key("a"), {kind: "cont"}, key("b"), {kind: "cont"}, idx(false, di(0))}},
+				{"a::mix=>b::[1]", []selStep{key("a"), {kind: "cont"}, {kind: "fn", key: "mix"}, key("b"), {kind: "cont"}, idx(false, di(1))}},
+				{"a::b::mix=>[(0:2)]", []selStep{key("a"), {kind: "cont"}, key("b"), {kind: "cont"}, {kind: "fn", key: "mix"}, idx(false, dr(0, 2))}},
+				{"mix=>a::x::c", []selStep{{kind: "fn", key: "mix"}, key("a"), {kind: "cont"}, key("x"), {kind: "cont"}, key("c")}},
+				{"a::b::[each]::distinct=>[0]", []selStep{key("a"), {kind: "cont"}, key("b"), {kind: "cont"}, idx(false, de()), {kind: "cont"}, {kind: "fn", key: "distinct"}, idx(false, di(0))}},
+				{"a::x::bogus=>c", []selStep{key("a"), {kind: "cont"}, key("x"), {kind: "cont"}, {kind: "fn", key: "bogus"}, key("c")}},
 			},
 		}
 		for _, e := range exs[i-p.nGram] {
